@@ -37,6 +37,8 @@ pub struct Core {
     pub magic: u32,
     pub val: i64,
     pub inner: Inner,
+    /// a second inner value: which of the two a selecting accessor hands out depends on its argument
+    pub inner2: Inner,
     pub heap: Box<u64>,
 }
 
@@ -48,6 +50,7 @@ impl Core {
             magic: payload::LIVE_MAGIC,
             val,
             inner: Inner { id: id as u32, magic: payload::LIVE_MAGIC, val: (val + 3) % M },
+            inner2: Inner { id: id as u32, magic: payload::LIVE_MAGIC, val: (val + 1) % M },
             heap: Box::new(0xC0DE_0000 + id as u64),
         }
     }
@@ -67,6 +70,7 @@ impl Drop for Core {
         payload::note_drop(self.id as usize);
         self.magic = payload::DEAD_MAGIC;
         self.inner.magic = payload::DEAD_MAGIC;
+        self.inner2.magic = payload::DEAD_MAGIC;
     }
 }
 
@@ -121,6 +125,29 @@ pub trait Kid {
     fn kid_owned(&self) -> Self::KOwned;
     fn kid_ref(&self) -> &Self::KRef;
     fn kid_mut(&mut self) -> &mut Self::KMut;
+    /// the reference returned depends on the argument (0: first inner value, otherwise the second)
+    fn kid_sel(&self, sel: i64) -> &Self::KRef;
+    fn kid_sel_mut(&mut self, sel: i64) -> &mut Self::KMut;
+    /// an owned wrapper whose type borrows from the parent (lending / GAT shape): an object of its own, with its own context clone
+    #[wrap_with_obj(Ra)]
+    type KView<'a>: Ra + 'a
+    where
+        Self: 'a;
+    fn kid_view<'a>(&'a mut self) -> Self::KView<'a>;
+}
+
+/// What `kid_view` lends: a view of the first inner value.
+pub struct ViewOf<'a>(pub &'a Inner);
+impl<'a> Ra for ViewOf<'a> {
+    fn ra_get(&self) -> i64 {
+        self.0.ra_get()
+    }
+    fn ra_mix(&self, a: i64) -> i64 {
+        self.0.ra_mix(a)
+    }
+    fn ra_id(&self) -> i64 {
+        self.0.ra_id()
+    }
 }
 
 impl Ra for Inner {
@@ -265,6 +292,19 @@ macro_rules! impl_kid {
                 self.0.check();
                 &mut self.0.inner
             }
+            fn kid_sel(&self, sel: i64) -> &Inner {
+                self.0.check();
+                if sel == 0 { &self.0.inner } else { &self.0.inner2 }
+            }
+            fn kid_sel_mut(&mut self, sel: i64) -> &mut Inner {
+                self.0.check();
+                if sel == 0 { &mut self.0.inner } else { &mut self.0.inner2 }
+            }
+            type KView<'a> = ViewOf<'a>;
+            fn kid_view<'a>(&'a mut self) -> ViewOf<'a> {
+                self.0.check();
+                ViewOf(&self.0.inner)
+            }
         }
     };
 }
@@ -275,6 +315,7 @@ macro_rules! impl_clone {
                 self.0.check();
                 let mut c = $name::new(payload::fresh_id(), self.0.val);
                 c.0.inner.val = self.0.inner.val;
+                c.0.inner2.val = self.0.inner2.val;
                 c
             }
         }
